@@ -13,7 +13,10 @@ RULE = (
     "learned once as enumerated (s0) and once in a drawn presentation (jobs "
     "permuted, events inside each job permuted, fresh event/job ids of "
     "three styles, timestamps shifted/reversed, one or two jobs repeated as "
-    "further instances; s1). Oracle inside one process: same outcome kind "
+    "further instances or as the very same records again; s1; two cases in "
+    "five additionally go through the file routes of pv2puml - one JSON "
+    "array per job, or one JSON object per event with all files interleaved "
+    "and grouped by job id, file order drawn - via the real dispatcher). Oracle inside one process: same outcome kind "
     "(diagram / same exception class), equal ingested models, equal event "
     "names, and language equivalence of the two diagrams (equal after "
     "sorting fork branches, else mutual bounded acceptance with loops <=2, "
@@ -131,6 +134,65 @@ def ingest_model(pv):
     return learn.model_of_events(ev)
 
 
+def learn_files(pv_jobs, route, route_seed, sched, nodes_hint, name="job"):
+    """The same presentation through the file routes of pv2puml (the real
+    dispatcher otel_to_puml(components='pv2puml')): 'job_files' = one JSON
+    array per job; 'event_files' = one JSON object per event, files of all
+    jobs interleaved in a drawn order, grouped by job id (-group-by-job)."""
+    import contextlib
+    import io
+    import json
+    import os
+    import tempfile
+    learn.install()
+    from tel2puml.otel_to_puml import otel_to_puml
+    rng = random.Random(route_seed)
+    with tempfile.TemporaryDirectory(prefix="verif-c03-") as tmp:
+        files = []
+        if route == "job_files":
+            for i, job in enumerate(pv_jobs):
+                fp = os.path.join(tmp, f"j{i}.json")
+                with open(fp, "w") as f:
+                    json.dump(job, f)
+                files.append(fp)
+            rng.shuffle(files)
+        else:
+            seen = set()
+            for i, job in enumerate(pv_jobs):
+                if job and job[0]["jobId"] in seen:
+                    continue        # the very same job again: listed once
+                seen.add(job[0]["jobId"] if job else None)
+                for k, e in enumerate(job):
+                    fp = os.path.join(tmp, f"e{i}_{k}.json")
+                    with open(fp, "w") as f:
+                        json.dump(e, f)
+                    files.append(fp)
+            rng.shuffle(files)
+        out = os.path.join(tmp, "out")
+        os.mkdir(out)
+        learn.SCHED.reseed(sched)
+        learn._STEPS["n"] = 0
+        learn._STEPS["limit"] = 2000 * (nodes_hint + 1)
+        try:
+            with contextlib.redirect_stdout(io.StringIO()):
+                otel_to_puml(
+                    pv_to_puml_options={
+                        "file_list": files, "job_name": name,
+                        "group_by_job_id": route == "event_files"},
+                    output_file_directory=out, components="pv2puml")
+            with open(os.path.join(out, name.replace(" ", "_") + ".puml")) \
+                    as f:
+                return ("ok", f.read())
+        except learn.NonTermination as e:
+            return ("nonterm", str(e))
+        except RecursionError as e:
+            return ("exc", "RecursionError", str(e)[:200])
+        except Exception as e:
+            return ("exc", type(e).__name__, str(e)[:300])
+        finally:
+            learn._STEPS["limit"] = 0
+
+
 def bcnt_jobs(spec):
     """Branch-count job sets (an upstream feature outside the reference
     semantics): a chain of `pre` events, then n parallel copies of a chain of
@@ -168,7 +230,8 @@ def run_bcnt(case, ctx=None):
     if ctx:
         ctx.record(case, len(set(case["bcnt"]["counts"])) >= 2,
                    ["branch_counts"] + [f"pres:{k}" for k, v in desc.items()
-                                        if v and k not in ("ids", "ts_shift")])
+                                        if v and k not in ("ids", "ts_shift", "route",
+                                      "route_seed")])
     learn.SCHED.reseed(case["sched"])
     m0 = ingest_model(pv0)
     learn.SCHED.reseed(case["sched1"])
@@ -192,6 +255,11 @@ def run_bcnt(case, ctx=None):
             raise Violation(
                 f"branch-count job set, two presentations ({desc}) give "
                 f"different diagrams:\n{r0[1]}\n{r1[1]}")
+    if desc.get("route", "memory") != "memory":
+        r2 = learn_files(pv1, desc["route"], desc["route_seed"],
+                         case["sched1"], 8)
+        compare(r0, r2, f"branch-count job set, in memory vs {desc['route']}"
+                f" ({desc})", raw=True)
     return r0
 
 
@@ -218,8 +286,9 @@ def run_case(case, ctx=None):
             or desc.get("repeated_jobs")
         cl = pvcase.case_classes(case, m)
         cl += [f"pres:{k}" for k, v in desc.items()
-               if v and k not in ("ids", "ts_shift")]
+               if v and k not in ("ids", "ts_shift", "route", "route_seed")]
         cl.append("pres:ids=" + desc["ids"])
+        cl.append("pres:route=" + desc.get("route", "memory"))
         ctx.record(case, bool(structured and changed), cl,
                    sample={"definition": ps.show(m.ast), "jobs": len(m.jobs),
                            "presentation": desc})
@@ -236,6 +305,11 @@ def run_case(case, ctx=None):
     r0 = learn.learn_pv(pv0, "job", case["sched"], nodes_hint=types)
     r1 = learn.learn_pv(pv1, "job", case["sched1"], nodes_hint=types)
     compare(r0, r1, f"two presentations ({desc})", case["sched"])
+    if desc.get("route", "memory") != "memory":
+        r2 = learn_files(pv1, desc["route"], desc["route_seed"],
+                         case["sched1"], types)
+        compare(r0, r2, f"in memory vs the same presentation through "
+                f"{desc['route']} ({desc})", case["sched"])
     return r0
 
 
